@@ -31,6 +31,14 @@ def scheduler_inv(v, sv):
 
 
 REG.invariants['Scheduler'] = scheduler_inv
+REG.zero_at_init['Scheduler'] = [('unlogged_scheduler', 'int'), ('admitted_ingest', 'real')]
+
+# __init__ establishes the Scheduler invariant (nothing logged, nothing promised, nothing admitted)
+REG.contract('Scheduler.__init__', params={'env': 'env', 'buffer': 'any', 'cluster': 'any', 'algorithm': 'any'},
+             world=lambda eng: {'self': __import__('pyvc.state', fromlist=['ObjV']).ObjV('Scheduler', {}, 'Scheduler')},
+             ensures=lambda c: [('C19-queue-empty', c.n.self.observation_queue.n == 0), ('C08-nothing-promised', c.n.self.provision_ingest.t == 0),
+                                ('C13-no-events', c.n.self.events.n == 0)],
+             invariants='post', modifies=['*'], props=['C08', 'C13', 'C19'])
 
 REG.contract('Scheduler.is_idle', world=SW,
              ensures=lambda c: [('C19-idle-iff-no-observation-queued', c.result.t == (c.o.self.observation_queue.n == 0))],
